@@ -280,7 +280,14 @@ C05(cfg, obs) ==
 -----------------------------------------------------------------------------
 \* C17 no panics with conformant peers
 C17(cfg, obs) ==
-  {W("C17", "panic", i, "", cfg, "") : i \in {i \in Idx(obs) : obs[i].k = "panic"}}
+  {W("C17", "panic", i, "", cfg,
+     \* context used to identify finding F8: share, a sink acts while the current upstream
+     \* subscription has not greeted yet
+     IF IsShare(cfg) /\ \E s \in Calls(obs) : s < i /\ obs[s].t = "Sub"
+                                              /\ ~UGreetedBefore(obs, obs[s].to, i)
+                                              /\ ~USelfEndedBefore(obs, obs[s].to, i)
+     THEN "share_upstream_not_greeted" ELSE "") :
+   i \in {i \in Idx(obs) : obs[i].k = "panic"}}
 
 -----------------------------------------------------------------------------
 \* list semantics shared by C06 / C07 (closure catalogue of harness/src/graph.rs and Callbag.tla)
